@@ -5,6 +5,7 @@
    Part 2: where Panic can come from. *)
 From KV Require Import Res.Pipeline Res.PipelineProofs Yaml.TotalityProofs.
 From KV Require Res.Labels Res.LabelsDefaults Res.Namespace Res.Hygiene Res.Generators Res.Hash Res.LegacySort Res.Replica Res.Image.
+From KV Require Res.Selector Yaml.Merge2Identity Yaml.Merge2Proofs.
 Local Open Scope string_scope.
 
 Definition nd {A} (r : res A) : Prop := r <> Diverge.
@@ -381,9 +382,60 @@ Proof.
     apply nd_fsslice. intros x. apply nd_set_image_value.
 Qed.
 
+(* ----- patches: ----- *)
+Lemma nd_apply_sm nonstr sch patch r : nd (apply_sm nonstr sch patch r).
+Proof.
+  unfold apply_sm, Merge2Identity.apply_sm_patch.
+  apply nd_bind; [apply nd_bind; [apply Merge2Proofs.merge2_no_diverge|]; intros o _; nd_case|].
+  intros o _. nd_case.
+Qed.
+
+Lemma nd_apply_selected nonstr sch ids patch m : nd (apply_selected nonstr sch ids patch m).
+Proof.
+  induction m as [|r t IH]; cbn [apply_selected]; [discriminate|].
+  apply nd_bind; [destruct (existsb _ ids); [apply nd_apply_sm|discriminate]|]. intros r' _.
+  apply nd_bind; [exact IH|]. intros; discriminate.
+Qed.
+
+Lemma nd_patch_by_id nonstr sch docs : forall m, nd (patch_by_id nonstr sch docs m).
+Proof.
+  induction docs as [|p t IH]; intros m; cbn [patch_by_id]; [discriminate|].
+  apply nd_bind; [apply nd_matching_any|]. intros ms _.
+  destruct ms as [|i [|]]; try discriminate. destruct (nth_error m i); [|discriminate].
+  apply nd_bind; [apply nd_apply_sm|]. intros; apply IH.
+Qed.
+
+Lemma nd_select parse cs lsel s rs : nd (Selector.select parse cs lsel s rs).
+Proof.
+  unfold Selector.select. apply nd_bind.
+  - unfold Selector.new_selector_regex, Selector.compile_anchored.
+    repeat (apply nd_bind; [nd_case|]; intros ? _). discriminate.
+  - intros rx _. generalize 0. induction rs as [|r t IH]; intros i; cbn [Selector.select_from]; [discriminate|].
+    apply nd_bind.
+    + unfold Selector.select_one. cbv zeta. apply nd_bind.
+      * unfold Selector.org_id. apply nd_bind; [unfold Selector.resource_prev_ids; nd_case|intros; discriminate].
+      * intros; nd_case.
+    + intros keep _. apply nd_bind; [apply IH|]. intros; discriminate.
+Qed.
+
+Lemma nd_patch_transform nonstr p m : nd (patch_transform nonstr p m).
+Proof.
+  unfold patch_transform. destruct (pp_target p); [|apply nd_patch_by_id].
+  destruct (pp_docs p) as [|patch [|]]; try discriminate.
+  apply nd_bind; [apply nd_select|]. intros idx _. unfold apply_to_set.
+  apply nd_bind; [apply nd_apply_selected|]. intros; apply nd_append_all.
+Qed.
+
+Lemma nd_patches_transform nonstr ps : forall m, nd (patches_transform nonstr ps m).
+Proof.
+  induction ps as [|p t IH]; intros m; cbn [patches_transform]; [discriminate|].
+  apply nd_bind; [apply nd_patch_transform|]. intros; apply IH.
+Qed.
+
 Lemma nd_run_kind nonstr k d m : nd (run_kind nonstr k d m).
 Proof.
   unfold run_kind.
+  destruct (String.eqb k "PatchTransformer"); [apply nd_patches_transform|].
   destruct (String.eqb k "NamespaceTransformer"); [apply nd_namespace_transform|].
   destruct (String.eqb k "PrefixTransformer"); [apply nd_prefix_transform|].
   destruct (String.eqb k "SuffixTransformer"); [apply nd_suffix_transform|].
